@@ -54,6 +54,11 @@ def strategy(tier, phase):
             # inserted): they add uses to values without being part of what is sorted
             # shared: a nested graph object is held a second time by the same node (another GRAPH attribute, or listed twice in
             # its GRAPHS attribute); unnamed: some nodes / node outputs have lost their names after joining their graph
+            # moves: before the sort, nodes are handed to their own graph again (insert_after / insert_before / Node.append at
+            # a generated anchor of the same graph - also the place where they already are); the order after the moves is the
+            # "previous order" the statement speaks of.  attr_spelling: GRAPHS attributes built from a list / tuple / generator
+            "moves": st.lists(st.tuples(st.integers(0, 30), st.integers(0, 30), st.integers(0, 3)).map(list), max_size=3),
+            "attr_spelling": st.integers(0, 3),
             "shared": st.sampled_from([0, 0, 0, 1, 2, 3]),
             "unnamed": st.sampled_from([0, 0, 0, 1, 2, 5]),
             "orphans": st.one_of(st.just([]), st.lists(st.tuples(st.integers(0, 30), st.integers(0, 1)).map(list), min_size=1, max_size=4)),
@@ -107,7 +112,9 @@ def build(case):
         if kids:
             share = case.get("shared", 0) and (i + case.get("shared", 0)) % 2 == 0
             if kind == 1:
-                attrs.append(ir.AttrGraphs("branches", [graphs[k] for k in kids] + ([graphs[kids[0]]] if share else [])))
+                bodies = [graphs[k] for k in kids] + ([graphs[kids[0]]] if share else [])
+                sp = (case.get("attr_spelling", 0) + i) % 4
+                attrs.append(ir.AttrGraphs("branches", bodies if sp == 0 else tuple(bodies) if sp == 1 else (b for b in bodies) if sp == 2 else iter(bodies)))
             else:
                 for j, k in enumerate(kids):
                     attrs.append(ir.AttrGraph(f"body{j}", graphs[k]))
@@ -175,6 +182,21 @@ def build(case):
                     graphs[g].outputs.append(nodes[cands[case["passthrough"] % len(cands)]].outputs[0])
                 except ValueError:
                     pass
+    for a_, b_, how in case.get("moves") or []:
+        n = nodes[a_ % len(nodes)]
+        g = graphs[node_graph[a_ % len(nodes)]]
+        members = list(g)
+        anchor = members[b_ % len(members)]
+        if anchor is n:
+            continue
+        if how == 0:
+            g.insert_after(anchor, [n])
+        elif how == 1:
+            g.insert_before(anchor, [n])
+        elif how == 2:
+            anchor.append(n)
+        else:
+            anchor.prepend([n])
     if case.get("unnamed"):
         for i, n in enumerate(nodes):
             if (i + case["unnamed"]) % 3 == 0:
@@ -411,11 +433,12 @@ def execute(case):
         classes.append(">=3 graphs")
     if multi_root:
         classes.append("pass_with_functions")
-    if case.get("shared") and any(len(a.value) != len({id(x) for x in a.value}) for n in nodes for a in n.attributes.values() if a.type.name == "GRAPHS") or \
-            any(len([1 for a in n.attributes.values() if a.type.name == "GRAPH"]) != len({id(a.value) for a in n.attributes.values() if a.type.name == "GRAPH"}) for n in nodes):
+    if case.get("shared") and any(rec[1] > 0 and (i + case.get("shared", 0)) % 2 == 0 for i, rec in enumerate(case["nodes"])):
         classes.append("graph_object_held_twice")
     if case.get("unnamed"):
         classes.append("unnamed_nodes_or_values")
+    if case.get("moves"):
+        classes.append("nodes_moved_before_the_sort")
     return dict(failures=fails, nontrivial=nontrivial, classes=classes)
 
 
